@@ -63,13 +63,15 @@ def main():
             # the files the model was written from have changed: the model may no longer describe the code, so
             # look harder before answering (two more passes with fresh seeds; counts of the last pass are reported)
             passes = 1
-            for k in (1, 2):
-                if rep.failures:
-                    break
-                common.shift_seed(k)
-                mod.run(rep, args.tier, build, replay=None)
-                passes += 1
-            common.shift_seed(0)
+            try:
+                for k in (1, 2):
+                    if rep.failures:
+                        break
+                    common.shift_seed(k)
+                    mod.run(rep, args.tier, build, replay=None)
+                    passes += 1
+            finally:
+                common.shift_seed(0)
             rep.coverage['passes_after_source_drift'] = passes
     except Exception:
         tb = traceback.format_exc()
